@@ -5,8 +5,8 @@ import numpy as np
 from core import Result
 import proto, gen, kernels, implutil
 
-THEOREMS = []
-RULE = ("generated signals of all families x option sets of C01 x both centre extrema x with/without sample columns; every shape column of the implementation's table is "
+THEOREMS = ['C04_equals_spec_peak', 'C04_equals_spec_trough', 'C04_identities_peak', 'C04_identities_trough', 'C04_band_amp_window']
+RULE = ("generated signals of all families x option sets of C01 (plus compute_shape_features' own n_cycles) x both centre extrema x with/without sample columns; every shape column of the implementation's table is "
         "compared with the Lean specification (documented definition read against the ORIGINAL signal with the centring's own column names): integer columns exactly, "
         "real columns within 1e-9 relative; band_amp once with the real amp_by_time and once with an integer-valued amplitude stub (harness process only) so that the "
         "half-open window [last side, next side) is observable exactly; distinct = distinct (signal, options); non-trivial = a table with >= 2 rows whose cycles differ")
@@ -35,7 +35,8 @@ def _impl(c):
         sh.amp_by_time = lambda s, *a, **k: _stub_amp(len(s))
     try:
         if c['via'] == 'shape':
-            df = implutil.quiet(compute_shape_features, sig, c['fs'], tuple(c['f_range']), center_extrema=c['center'], find_extrema_kwargs=fek)
+            kw = {} if c.get('n_cycles') is None else {'n_cycles': c['n_cycles']}
+            df = implutil.quiet(compute_shape_features, sig, c['fs'], tuple(c['f_range']), center_extrema=c['center'], find_extrema_kwargs=fek, **kw)
         else:
             df = implutil.quiet(compute_features, sig, c['fs'], tuple(c['f_range']), center_extrema=c['center'], find_extrema_kwargs=fek,
                                 threshold_kwargs={}, return_samples=True)
@@ -67,6 +68,8 @@ def generate(ctx):
                           boundary=(None if rng.random() < 0.5 else int(rng.choice([0, 3, 30]))),
                           center=str(rng.choice(['peak', 'trough'])), stub=bool(rng.random() < 0.5),
                           via=str(rng.choice(['shape', 'features'])), family=s['family']))
+        if cases[-1]['via'] == 'shape' and rng.random() < 0.5:      # the function's own n_cycles (band amplitude filter length)
+            cases[-1]['n_cycles'] = int(rng.choice([2, 4, 5, 7]))
     return cases
 
 def _close(fl, atom, tol=Fraction(1, 10**9)):
@@ -87,8 +90,9 @@ def evaluate(ctx, cases):
             pre.append(dict(err=type(e).__name__ + ': ' + str(e)[:150])); continue
         used = x if c['center'] == 'peak' else -x
         try:
-            amp_used = _stub_amp(len(x)) if c['stub'] else kernels.band_amp(used, c['fs'], tuple(c['f_range']))
-            amp_x = _stub_amp(len(x)) if c['stub'] else kernels.band_amp(x, c['fs'], tuple(c['f_range']))
+            nc = c.get('n_cycles') or 3
+            amp_used = _stub_amp(len(x)) if c['stub'] else kernels.band_amp(used, c['fs'], tuple(c['f_range']), n_cycles=nc)
+            amp_x = _stub_amp(len(x)) if c['stub'] else kernels.band_amp(x, c['fs'], tuple(c['f_range']), n_cycles=nc)
         except Exception as e:
             pre.append(dict(err='kernel: ' + type(e).__name__)); continue
         rows = implutil.sample_rows(df, c['center'])
